@@ -68,7 +68,7 @@ func (w *world) startService() {
 			ci := connOfPeer(simnet.LastAccepted)
 			m := map[consts.JT808CommandType]service.Handler{}
 			for id, mk := range modelTable(w.plan.Svc.Dialect) {
-				m[id] = &recHandler{JT808Handler: mk(), w: w, conn: ci, parse: parse, mk: mk}
+				m[id] = &recHandler{JT808Handler: mk(), rx: mk(), w: w, conn: ci, parse: parse, mk: mk}
 			}
 			return m
 		}))
@@ -187,6 +187,11 @@ func (r *recEventer) OnWriteExecutionEvent(msg service.Message) {
 
 type recHandler struct {
 	service.JT808Handler
+	// rx is the receiver the read callback parses into, message after message (the reused per-connection
+	// receiver of C03). It is only ever touched by the connection's reader goroutine; the embedded handler
+	// above is the one the library calls ReplyBody on in the writer goroutine. Sharing one object between the
+	// two goroutines would be a race of the handler's author, not of the library.
+	rx service.JT808Handler
 	w     *world
 	conn  int
 	parse bool
